@@ -629,5 +629,171 @@ EXTRA_EXTRACTORS.append(hook_facts)
 EXTRA_RENDERERS.append(render_hook)
 
 
+
+# --------------------------------------------------------------------------- annotation building / pickling (C15 / C20)
+
+
+def _src(node):
+    try:
+        return ast.unparse(node)
+    except Exception:  # noqa: BLE001
+        return "?"
+
+
+def make_facts(facts):
+    tree = parse("_array_types.py")
+    mk = {"scalarLadder": [], "nestDimsOuterFirst": False, "nestStrOuterFirst": False, "nestVariadicShift": False,
+          "nestDtypesFilter": False, "nestDtypesAnyTakesInner": False, "reducerCarriesDtypes": False, "reducerRebuildsVia": "unknown",
+          "stripsDimStr": False, "aliases": [], "sentinelsByReference": False}
+    facts["make"] = mk
+    fn = find_def(tree, "_make_array_cached")
+    if fn is not None:
+        for node in ast.walk(fn):
+            if isinstance(node, ast.If):
+                # `array_type is X [or array_type is Y]` guarding `if _check_scalar("p", dtypes, dims): return array_type else: return _not_made`
+                tests = node.test.values if isinstance(node.test, ast.BoolOp) and isinstance(node.test.op, ast.Or) else [node.test]
+                tys = []
+                for t in tests:
+                    if isinstance(t, ast.Compare) and len(t.ops) == 1 and isinstance(t.ops[0], ast.Is) and isinstance(t.left, ast.Name) and t.left.id == "array_type":
+                        tys.append(_src(t.comparators[0]))
+                    else:
+                        tys = []
+                        break
+                if tys and len(node.body) == 1 and isinstance(node.body[0], ast.If):
+                    inner = node.body[0]
+                    c = inner.test
+                    if call_name(c) == "_check_scalar" and len(c.args) == 3 and isinstance(c.args[0], ast.Constant) \
+                            and _src(c.args[1]) == "dtypes" and _src(c.args[2]) == "dims" \
+                            and len(inner.body) == 1 and isinstance(inner.body[0], ast.Return) and _src(inner.body[0].value) == "array_type" \
+                            and len(inner.orelse) == 1 and isinstance(inner.orelse[0], ast.Return) and _src(inner.orelse[0].value) == "_not_made":
+                        for ty in tys:
+                            mk["scalarLadder"].append((ty, c.args[0].value))
+            if isinstance(node, ast.Assign) and len(node.targets) == 1:
+                tgt, val = _src(node.targets[0]), _src(node.value)
+                if tgt == "dims" and val == "dims + array_type.dims":
+                    mk["nestDimsOuterFirst"] = True
+                if tgt == "dim_str" and val == "dim_str + ' ' + array_type.dim_str":
+                    mk["nestStrOuterFirst"] = True
+                if tgt == "index_variadic" and val == "array_type.index_variadic + len(dims)":
+                    mk["nestVariadicShift"] = True
+                if tgt == "dtypes" and val == "tuple((x for x in dtypes if x in array_type.dtypes))":
+                    mk["nestDtypesFilter"] = True
+                if tgt == "dtypes" and val == "array_type.dtypes":
+                    mk["nestDtypesAnyTakesInner"] = True
+    gi = find_def(tree, "_MetaAbstractDtype", "__getitem__")
+    if gi is not None:
+        mk["stripsDimStr"] = any(isinstance(n, ast.Assign) and _src(n.targets[0]) == "dim_str" and _src(n.value) == "dim_str.strip()" for n in ast.walk(gi))
+    red = find_def(tree, "_pickle_array_annotation")
+    if red is not None:
+        rets = [n for n in ast.walk(red) if isinstance(n, ast.Return) and isinstance(n.value, ast.Tuple) and len(n.value.elts) == 2]
+        rets = [r for r in rets if _src(r.value.elts[0]) != "_return_abstractarray"]
+        if len(rets) == 1:
+            target, args = rets[0].value.elts
+            mk["reducerRebuildsVia"] = _src(target)
+            # does a value derived from `x.dtypes` travel in the arguments?
+            derived = {"x.dtypes"}
+            for n in ast.walk(red):
+                if isinstance(n, ast.Assign) and len(n.targets) == 1 and isinstance(n.targets[0], ast.Name) and "x.dtypes" in _src(n.value):
+                    derived.add(n.targets[0].id)
+            argsrc = {_src(a) for a in ast.walk(args) if isinstance(a, (ast.Name, ast.Attribute))}
+            carries = bool(derived & argsrc)
+            if carries and _src(target) != "x.dtype.__getitem__":
+                un = find_def(tree, _src(target))
+                # the unpickler must install the carried dtypes on the rebuilt annotation
+                carries = un is not None and any(
+                    isinstance(n, (ast.Assign,)) and isinstance(n.targets[0], ast.Attribute) and n.targets[0].attr == "dtypes" for n in ast.walk(un)
+                ) or (un is not None and any(call_name(c) in ("_make_array_cached", "_MetaAbstractArray") for c in ast.walk(un)))
+            mk["reducerCarriesDtypes"] = bool(carries)
+    # the identity-compared sentinels: instances of a class whose __reduce__ returns a string (their own
+    # module-level name) pickle by reference; a bare object() does not
+    by_ref_classes = set()
+    for node in tree.body:
+        if isinstance(node, ast.ClassDef):
+            for m in node.body:
+                if isinstance(m, ast.FunctionDef) and m.name == "__reduce__":
+                    rets = [r for r in ast.walk(m) if isinstance(r, ast.Return)]
+                    if len(rets) == 1 and isinstance(rets[0].value, ast.Attribute) and _src(rets[0].value.value) == "self":
+                        attr = rets[0].value.attr
+                        init_ = [f for f in node.body if isinstance(f, ast.FunctionDef) and f.name == "__init__"]
+                        # __init__(self, name): self.<attr> = name
+                        if init_ and any(isinstance(a, ast.Assign) and _src(a.targets[0]) == "self." + attr and isinstance(a.value, ast.Name) and a.value.id == init_[0].args.args[1].arg for a in ast.walk(init_[0])):
+                            by_ref_classes.add(node.name)
+    sent = {}
+    for node in tree.body:
+        if isinstance(node, ast.Assign) and len(node.targets) == 1 and isinstance(node.targets[0], ast.Name) \
+                and node.targets[0].id in ("_any_dtype", "_anonymous_dim", "_anonymous_variadic_dim"):
+            nm = node.targets[0].id
+            v = node.value
+            sent[nm] = isinstance(v, ast.Call) and isinstance(v.func, ast.Name) and v.func.id in by_ref_classes \
+                and len(v.args) == 1 and isinstance(v.args[0], ast.Constant) and v.args[0].value == nm
+    mk["sentinelsByReference"] = len(sent) == 3 and all(sent.values())
+    init = parse("__init__.py")
+    ga = None
+    for n in ast.walk(init):
+        if isinstance(n, ast.FunctionDef) and n.name == "__getattr__":
+            ga = n
+    if ga is not None:
+        def ann(node):
+            # Cat[arraytype, "dims"]
+            if isinstance(node, ast.Subscript) and isinstance(node.value, ast.Name) and isinstance(node.slice, ast.Tuple) and len(node.slice.elts) == 2 \
+                    and isinstance(node.slice.elts[1], ast.Constant) and isinstance(node.slice.elts[1].value, str):
+                return (node.value.id, _src(node.slice.elts[0]).split(".")[-1], node.slice.elts[1].value)
+            return None
+        for n in ast.walk(ga):
+            if isinstance(n, ast.If) and isinstance(n.test, ast.Compare) and _src(n.test.left) == "item" and isinstance(n.test.comparators[0], ast.Constant):
+                name = n.test.comparators[0].value
+                if name in ("Scalar", "ScalarLike", "PRNGKeyArray"):
+                    rets = [r for r in n.body if isinstance(r, ast.Return)]
+                    if len(rets) == 1:
+                        v = rets[0].value
+                        if isinstance(v, ast.Subscript) and _src(v.value) == "Union":
+                            elts = v.slice.elts if isinstance(v.slice, ast.Tuple) else [v.slice]
+                            parts = [ann(e) for e in elts]
+                        else:
+                            parts = [ann(v)]
+                        if all(parts):
+                            mk["aliases"].append((name, parts))
+    mk["aliases"].sort()
+
+
+def render_make(facts):
+    mk = facts["make"]
+    lad = ", ".join(f"({lean_str(a)}, {lean_str(b)})" for a, b in mk["scalarLadder"])
+    als = ", ".join(
+        f"({lean_str(n)}, [" + ", ".join(f"({lean_str(c)}, {lean_str(a)}, {lean_str(d)})" for c, a, d in parts) + "])" for n, parts in mk["aliases"]
+    )
+    txt = f"""/- GENERATED by harness/extract.py from {SRC}/_array_types.py and __init__.py on every run. Do not edit. -/
+namespace JV.Generated
+
+/-- `array_type is X` -> the dtype-name prefix handed to `_check_scalar`, in source order -/
+def scalarLadder : List (String × String) := [{lad}]
+/-- nesting: `dims = dims + array_type.dims`, `dim_str = dim_str + " " + array_type.dim_str`,
+    `index_variadic = array_type.index_variadic + len(dims)`, dtypes filtered by membership,
+    an any-dtype outer category takes the inner dtypes -/
+def nestDimsOuterFirst : Bool := {lean_bool(mk['nestDimsOuterFirst'])}
+def nestStrOuterFirst : Bool := {lean_bool(mk['nestStrOuterFirst'])}
+def nestVariadicShift : Bool := {lean_bool(mk['nestVariadicShift'])}
+def nestDtypesFilter : Bool := {lean_bool(mk['nestDtypesFilter'])}
+def nestDtypesAnyTakesInner : Bool := {lean_bool(mk['nestDtypesAnyTakesInner'])}
+/-- `__getitem__` strips the dim string -/
+def stripsDimStr : Bool := {lean_bool(mk['stripsDimStr'])}
+/-- the copyreg reducer hands the effective dtypes (`x.dtypes`) to the function that rebuilds -/
+def reducerCarriesDtypes : Bool := {lean_bool(mk['reducerCarriesDtypes'])}
+def reducerRebuildsVia : String := {lean_str(mk['reducerRebuildsVia'])}
+/-- the sentinels `_any_dtype`, `_anonymous_dim`, `_anonymous_variadic_dim` pickle as references to
+    their module-level names (their class has a `__reduce__` returning the name) -/
+def sentinelsByReference : Bool := {lean_bool(mk['sentinelsByReference'])}
+/-- the lazily built aliases of `jaxtyping/__init__.py`: name -> [(category, array type, dim string)] -/
+def aliases : List (String × List (String × String × String)) := [{als}]
+
+end JV.Generated
+"""
+    write_if_changed(os.path.join(GEN, "Make.lean"), txt)
+
+
+EXTRA_EXTRACTORS.append(make_facts)
+EXTRA_RENDERERS.append(render_make)
+
+
 if __name__ == "__main__":
     print(json.dumps(run(), indent=1, default=str))
